@@ -6,8 +6,8 @@ checks, served = [], []
 for f in sorted(glob.glob(os.path.join(ROOT, "props", "*", "check.json"))):
     c = json.load(open(f))
     m = c.get("manifest")
-    if not m or not m.get("claimed", True):
-        continue
+    if not m or not m.get("reviewed"):
+        continue  # only checks the lead has reviewed (manifest.reviewed = true) are claimed
     cid = c["id"]
     served.append(cid)
     checks.append({
